@@ -103,6 +103,12 @@ func (g *GRU) Apply(inputs []tensor.Tensor) ([]tensor.Tensor, error) {
 	prevH := inputs[5]
 	if prevH == nil {
 		prevH = ops.ZeroTensor(1, batchSize, g.hiddenSize)
+	} else {
+		// The initial state is reshaped below, work on a copy so the input stays as it is.
+		var ok bool
+		if prevH, ok = prevH.Clone().(tensor.Tensor); !ok {
+			return nil, ops.ErrTypeAssert("tensor.Tensor", inputs[5].Clone())
+		}
 	}
 
 	// Extract the shape of the hidden dimensions without the bidirectional dimension, as
